@@ -60,8 +60,22 @@ def run(res, b, tier, seed):
                                                          "lib.tsh": b"func Pub() int {\n\treturn 7\n}\n"}))
     progs.append(pipeline.Case("i%d" % len(progs), {"main.tsh": b'import l "lib.tsh"\nfunc shared() string {\n\treturn "s"\n}\nprint(l.Pub())\n',
                                                      "lib.tsh": b"func Pub() int {\n\treturn 7\n}\nfunc Unused() int {\n\treturn 8\n}\n"}))
+    # top-level calls of imported functions before any definition of the program's own (round 10: C14-C)
+    progs.append(pipeline.Case("i%d" % len(progs), {"main.tsh": b'import l "lib.tsh"\nprint(l.Pub())\nprint(l.Two(3))\nfunc own() int {\n\treturn l.Pub() + 1\n}\nprint(own())\n',
+                                                     "lib.tsh": b"func Pub() int {\n\treturn 7\n}\nfunc Two(a int) int {\n\treturn a * 2\n}\nfunc Unused() int {\n\treturn 8\n}\n"}))
+    progs.append(pipeline.Case("i%d" % len(progs), {"main.tsh": b'import "strings"\nprint(strings.Repeat("ab", 2))\nprint(strings.Index("abc", "c"))\n'}))
     inter1 = len(progs)
     progs.append(pipeline.Case("bad", {"main.tsh": b"x := \n"}))
+    # programs the PARSER rejects at different depths of its own recursion - inside a function body, inside a loop inside a function, inside a
+    # switch, inside an imported file: an error must leave nothing behind on the transpiler object either (round 10: C14-C, one parser kept on
+    # the transpiler object, its "current function" cleared on the success path only)
+    parse_bad0 = len(progs)
+    progs.append(pipeline.Case("pbad-in-func", {"main.tsh": b"func f() int {\n\tx := 1\n\treturn x + y\n}\nprint(f())\n"}))
+    progs.append(pipeline.Case("pbad-in-func-loop", {"main.tsh": b"func g() {\n\tfor i := 0; i < 2; i++ {\n\t\tif true {\n\t\t\tundefined(i)\n\t\t}\n\t}\n}\ng()\n"}))
+    progs.append(pipeline.Case("pbad-in-switch", {"main.tsh": b'x := 1\nswitch x {\ncase "a":\n\tprint(1)\n}\n'}))
+    progs.append(pipeline.Case("pbad-in-import", {"main.tsh": b'import l "lib.tsh"\nprint(l.Pub())\n', "lib.tsh": b"func Pub() int {\n\treturn nothing\n}\n"}))
+    progs.append(pipeline.Case("pbad-in-loop", {"main.tsh": b"x := 1\nfor i := 0; i < 2; i++ {\n\tx := 2\n\tprint(x, i, j)\n}\n"}))
+    parse_bad1 = len(progs)
     # programs the PARSER accepts and a converter rejects: an error in the middle of a transpilation must leave nothing behind on the
     # transpiler object (round 9: C14-B, a nesting depth that is not restored on the error path - every later script lost its frame)
     conv_bad0 = len(progs)
@@ -124,6 +138,13 @@ def run(res, b, tier, seed):
         for t in ("bash", "batch"):
             good = inter0 + (bad % (inter1 - inter0))
             directed.append([(good, t), (bad, t), (good, t), (bad, "bash" if t == "batch" else "batch"), (inter0, t)])
+    # rejected by the parser, then every good program; and good, rejected, good
+    for bad in range(parse_bad0, parse_bad1):
+        for t in ("bash", "batch"):
+            for good in range(inter0, inter1):
+                directed.append([(bad, t), (good, t)])
+            good = inter0 + (bad % (inter1 - inter0))
+            directed.append([(good, t), (bad, t), (inter1 - 2, "bash" if t == "batch" else "batch"), (bad, t), (good, t)])
     nh = nh + len(directed)
     for h in range(nh):
         if h < len(directed):
